@@ -1,6 +1,8 @@
 package globals
 
 import (
+	"sync/atomic"
+
 	"github.com/preslavrachev/gomjml/parser"
 )
 
@@ -116,34 +118,39 @@ func (ga *GlobalAttributes) GetClassAttributes(className string) map[string]stri
 	return nil
 }
 
-// Global instance (will be set during rendering)
-var instance *GlobalAttributes
+// Global instance (set during rendering). Components prefer the store carried by
+// their render options; this process-wide pointer only serves callers that do not
+// provide one, and is atomic so concurrent renders do not race on it.
+var instance atomic.Pointer[GlobalAttributes]
 
 // SetGlobalAttributes sets the global attributes instance
 func SetGlobalAttributes(ga *GlobalAttributes) {
-	instance = ga
+	instance.Store(ga)
 }
 
 // GetGlobalAttribute is a package-level function to access global attributes
 func GetGlobalAttribute(componentName, attrName string) string {
-	if instance == nil {
+	ga := instance.Load()
+	if ga == nil {
 		return ""
 	}
-	return instance.GetGlobalAttribute(componentName, attrName)
+	return ga.GetGlobalAttribute(componentName, attrName)
 }
 
 // GetClassAttribute is a package-level function to access mj-class definitions
 func GetClassAttribute(className, attrName string) string {
-	if instance == nil {
+	ga := instance.Load()
+	if ga == nil {
 		return ""
 	}
-	return instance.GetClassAttribute(className, attrName)
+	return ga.GetClassAttribute(className, attrName)
 }
 
 // GetClassAttributes is a package-level function to access full mj-class attribute maps
 func GetClassAttributes(className string) map[string]string {
-	if instance == nil {
+	ga := instance.Load()
+	if ga == nil {
 		return nil
 	}
-	return instance.GetClassAttributes(className)
+	return ga.GetClassAttributes(className)
 }
